@@ -571,3 +571,86 @@ def h_e_two_reads(fa: int, b1: int, b2: int, b3: int) -> bool:
     """
     a = FIRST[pick(fa, 0, 7)]
     return untraced(_two_reads, a[0], a[1], a[2], pick(b1, 2, 4), pick(b2, 0, 19), pick(b3, 0, 19))
+
+
+# ------------------------------------------------ files given by NAME (the library opens them itself)
+class _NamedFS:
+    """in-memory stand-in for open(name, mode, encoding=...) as used by the dimacs / opb / latex writers and the dimacs reader:
+    what is written is kept as BYTES in the requested encoding, so an encoding that cannot represent the text fails as on disk"""
+    def __init__(self):
+        self.files = {}
+
+    def open(self, name, mode='r', encoding=None, **kw):
+        fs = self
+        enc = encoding or 'utf-8'
+        if 'w' in mode:
+            raw = io.BytesIO()
+
+            class W(io.TextIOWrapper):
+                def close(w):
+                    try:
+                        w.flush()
+                    finally:
+                        fs.files[name] = raw.getvalue()
+                        io.TextIOWrapper.close(w)
+            fs.files[name] = b''
+            return W(raw, encoding=enc, newline='')
+        if name not in self.files:
+            raise FileNotFoundError(2, 'No such file or directory', name)
+        return io.TextIOWrapper(io.BytesIO(self.files[name]), encoding=enc)
+
+
+NAMES_BY_FILE = [None, 'y_{}', 'caf\u00e9_{}', '\u03b6{}', 'na\u00efve {} name', 'x{}']
+
+
+def _named_file(fidx, li, varnames, header):
+    import cnfgen.utils.parsedimacs as PD
+    import cnfgen.utils.opb as OP
+    import cnfgen.utils.latexoutput as LX
+    n, cl = [(0, []), (2, [[1, -2], [2]]), (3, [[1, 2, 3], [], [-3]]), (1, [[1], [-1]])][fidx]
+    F = CNF(description='caf\u00e9 \u03b6 formula')
+    if NAMES_BY_FILE[li] is None:
+        F.update_variable_number(n)
+    else:
+        F.new_block(n, label=NAMES_BY_FILE[li])
+    for c in cl:
+        F.add_clause(list(c))
+    fs = _NamedFS()
+    for m in (PD, OP, LX):
+        m.open = fs.open
+    try:
+        F.to_file('out.cnf', export_header=header, export_varnames=varnames)
+        F.to_file('out.opb', export_header=header, export_varnames=varnames)
+        F.to_file('out.tex', export_header=header)
+        text = fs.files['out.cnf'].decode('utf-8')
+        got = strict_read(text)
+        if got is None or got[0] != n or got[1] != [list(c) for c in cl]:
+            return False
+        G = CNF.from_file('out.cnf')
+        if G.number_of_variables() != n or [list(c) for c in G.clauses()] != [list(c) for c in cl]:
+            return False
+        if varnames:
+            labels = list(F.all_variable_labels())
+            names = {}
+            for ln in text.split('\n'):
+                if ln.startswith('c varname '):
+                    parts = ln.split(' ', 3)
+                    names[int(parts[2])] = parts[3] if len(parts) > 3 else ''
+            if [names.get(v) for v in range(1, n + 1)] != labels:
+                return False
+        opb = fs.files['out.opb'].decode('utf-8')
+        if not opb.startswith('* #variable= %d #constraint= %d' % (n, len(cl))) or not opb.endswith('\n'):
+            return False
+        tex = fs.files['out.tex'].decode('utf-8')
+        return tex.rstrip().endswith('\\end{document}')
+    finally:
+        for m in (PD, OP, LX):
+            del m.open
+
+
+def h_e_named_file(fidx: int, li: int, varnames: bool, header: bool) -> bool:
+    """
+    pre: 0 <= fidx <= 3 and 0 <= li <= 5
+    post: _
+    """
+    return untraced(_named_file, pick(fidx, 0, 3), pick(li, 0, 5), pickb(varnames), pickb(header))
